@@ -56,7 +56,7 @@ def generate(rng, tier):
                 frames.append((fi, kind, cur_sp, cfa))
                 cur_sp = cfa
             # return addresses: frame d returns into function funcs[d+1] (or the root/marker)
-            term = cur_sp + 48 if marker == "nullfp" else 0
+            term = cur_sp + 48          # frame record above everything: null saved fp only matters for the nullfp marker
             start_fp = 0
             for d, (fi, kind, fsp, cfa) in enumerate(frames):
                 last = (d == depth - 1)
@@ -78,7 +78,7 @@ def generate(rng, tier):
             # terminal frame record (null saved fp) above everything
             mem[term] = 0
             mem[term + 8] = 0x12f40
-            top = (term + 32) if term else (cur_sp + 64)
+            top = term + 32
             for a in range(base, top, 8):
                 mem.setdefault(a, 0x11000 + 0x900 + (a & 0xf8))        # filler: uncovered code addresses
             if marker == "nullfp":
@@ -86,8 +86,13 @@ def generate(rng, tier):
                 # the last return address points into an uncovered gap -> fp rule with the restored fp (0 on x86)
                 mem[frames[-1][3] - 8] = 0x12f00
             pc = 0x11000 + 0x100 * funcs[0] + 0x20
-            lr = mem[frames[0][3] - 8]
-            regs = s.regs_x86(pc, base, start_fp) if arch == "x86" else s.regs_a64(M64, lr, base, start_fp)
+            # the innermost function has already saved lr: the register holds something else
+            lr = 0xdead0
+            amask = (1 << 48) - 1
+            if arch == "a64" and marker == "nullra":
+                # a null return address that still carries authentication bits is null
+                mem[frames[-1][3] - 8] = 0x5a << 56
+            regs = s.regs_x86(pc, base, start_fp) if arch == "x86" else s.regs_a64(amask, lr, base, start_fp)
             mid = "F%d" % sc
             s.mem(mid, sorted(mem.items()))
             s.add("newcache C")
